@@ -18,6 +18,7 @@ func TestMain(m *testing.M) { vk.Main(m, "C15") }
 
 // Op is one step of a history with concrete arguments (replay needs no rapid).
 type Op struct {
+	I   int    `json:"i,omitempty"`   // which TailBitmap of the case (0 = the first)
 	K   string `json:"k"`             // set | fillword | fillthrough | compact
 	A   int64  `json:"a,omitempty"`   // set: idx; fillword: absolute word number; fillthrough: number of words
 	B   int64  `json:"b,omitempty"`   // fillword: order 0 front-to-back, 1 back-to-front, 2 permuted by Key
@@ -25,15 +26,16 @@ type Op struct {
 }
 
 type Case struct {
-	O        int64  `json:"o"` // initial offset (multiple of 64)
-	Ops      []Op   `json:"ops"`
-	ProbeKey vk.U64 `json:"probe_key"`
-	Class    string `json:"class,omitempty"`
+	O        int64   `json:"o"`              // initial offset (multiple of 64) of instance 0
+	More     []int64 `json:"more,omitempty"` // initial offsets of further instances that are alive at the same time
+	Ops      []Op    `json:"ops"`
+	ProbeKey vk.U64  `json:"probe_key"`
+	Class    string  `json:"class,omitempty"`
 }
 
 var checker = &vk.Checker[Case]{
 	ID: "C15",
-	Rule: "histories from NewTailBitmap(o), o in {0,64,128,64*r up to 2^40, 2^37}, of <= 60 (thorough <= 400) steps drawn state-dependently from a model: Set(idx) below Offset / at Offset / inside word 0 / the LAST missing bit of word 0 (forces compaction) / inside word k>0 / up to 8 (thorough 64) words past the end / repeats; " +
+	Rule: "histories on one to three TailBitmaps that are alive at the same time (after every step the untouched ones are checked too), each from NewTailBitmap(o), o in {0,64,128,64*r up to 2^40, 2^37}, of <= 60 (thorough <= 400) steps drawn state-dependently from a model: Set(idx) below Offset / at Offset / inside word 0 / the LAST missing bit of word 0 (forces compaction) / inside word k>0 / up to 8 (thorough 64) words past the end / more than 1024 words (the initial capacity) past the end / repeats; " +
 		"macro steps FillWord(k, front-to-back | back-to-front | permuted) and FillThrough(m words), m in {1,2,3,1023,1024,1025} (crossing the 1024-word reclaim threshold); Compact. Model = o + set of explicitly set indexes. After EVERY step: Offset%64==0, Offset monotone, Offset <= first model zero, first stored word not all-ones after a Set, " +
 		"Get1/Get == model over [max(0,Offset-130), end of stored words) (all positions when <= 4096, else boundaries, each word's first/last bit and 512 keyed positions), highest set index below Offset or inside the stored words, Compact changes no Get result. " +
 		"Non-trivial: the history advanced Offset at least once and afterwards a stored word (which holds a 0 bit) was probed. Distinct by hash of the history.",
@@ -121,14 +123,29 @@ func (l lazyStep) String() string {
 type probeRes struct{ g1, g uint64 }
 
 func check(c Case) *vk.Failure {
-	var tb *bitmap.TailBitmap
-	if f := vk.Try("NewTailBitmap", func() { tb = bitmap.NewTailBitmap(c.O) }); f != nil {
-		return f
+	// all instances of the case are created up front and stay alive together; tb, m and prevOffset
+	// are aliases of the instance the current step works on
+	offs := append([]int64{c.O}, c.More...)
+	tbs := make([]*bitmap.TailBitmap, len(offs))
+	ms := make([]*model, len(offs))
+	prevs := make([]int64, len(offs))
+	for i, o := range offs {
+		i, o := i, o
+		if f := vk.Try("NewTailBitmap", func() { tbs[i] = bitmap.NewTailBitmap(o) }); f != nil {
+			return f
+		}
+		ms[i] = newModel(o)
+		prevs[i] = tbs[i].Offset
+		if tbs[i].Offset != o {
+			return vk.Failf("initial-offset", "NewTailBitmap(%d).Offset = %d", o, tbs[i].Offset)
+		}
 	}
-	m := newModel(c.O)
-	prevOffset := tb.Offset
-	if tb.Offset != c.O {
-		return vk.Failf("initial-offset", "NewTailBitmap(%d).Offset = %d", c.O, tb.Offset)
+	tb, m, prevOffset := tbs[0], ms[0], prevs[0]
+	cur := 0
+	use := func(i int) {
+		prevs[cur] = prevOffset
+		cur = i
+		tb, m, prevOffset = tbs[i], ms[i], prevs[i]
 	}
 
 	cheap := func(step0 string, idx int64, afterSet bool) *vk.Failure {
@@ -211,8 +228,33 @@ func check(c Case) *vk.Failure {
 		return res, nil
 	}
 
+	// others: after a step on one instance every other live instance must still read like its model
+	others := func(si int, step string) *vk.Failure {
+		me := cur
+		for j := range tbs {
+			if j == me {
+				continue
+			}
+			use(j)
+			if f := cheap(step+fmt.Sprintf(" [checking instance %d]", j), -1, false); f != nil {
+				f.Kind = "other-instance:" + f.Kind
+				return f
+			}
+			if _, f := probe(step+fmt.Sprintf(" [checking instance %d, which this step did not touch]", j), window(si)); f != nil {
+				f.Kind = "other-instance:" + f.Kind
+				return f
+			}
+		}
+		use(me)
+		return nil
+	}
+
 	for si, op := range c.Ops {
-		step := fmt.Sprintf("step %d (%s a=%d b=%d)", si, op.K, op.A, op.B)
+		if op.I < 0 || op.I >= len(tbs) {
+			continue
+		}
+		use(op.I)
+		step := fmt.Sprintf("step %d (instance %d: %s a=%d b=%d)", si, op.I, op.K, op.A, op.B)
 		if op.K == "compact" {
 			js := window(si)
 			before, f := probe(step+" before Compact", js)
@@ -235,6 +277,9 @@ func check(c Case) *vk.Failure {
 					return vk.Failf("compact-changed-get", "%s: Get(%d) changed from %v to %v", step, js[i], before[i], after[i])
 				}
 			}
+			if f := others(si, step); f != nil {
+				return f
+			}
 			continue
 		}
 		for _, idx := range expand(op, m) {
@@ -251,12 +296,20 @@ func check(c Case) *vk.Failure {
 		if _, f := probe(step, window(si)); f != nil {
 			return f
 		}
+		if f := others(si, step); f != nil {
+			return f
+		}
 	}
 	return nil
 }
 
 func classify(c Case) (bool, []string) {
-	m := newModel(c.O)
+	offs := append([]int64{c.O}, c.More...)
+	ms := make([]*model, len(offs))
+	for i, o := range offs {
+		ms[i] = newModel(o)
+	}
+	m := ms[0]
 	advanced, probedAfter := false, false
 	labels := []string{}
 	seen := map[string]bool{}
@@ -266,7 +319,14 @@ func classify(c Case) (bool, []string) {
 			labels = append(labels, l)
 		}
 	}
+	if len(offs) > 1 {
+		add(fmt.Sprintf("instances:%d", len(offs)))
+	}
 	for _, op := range c.Ops {
+		if op.I < 0 || op.I >= len(ms) {
+			continue
+		}
+		m = ms[op.I]
 		switch op.K {
 		case "compact":
 			add("has-compact")
@@ -288,8 +348,11 @@ func classify(c Case) (bool, []string) {
 			m.doSet(idx)
 		}
 		off := m.firstZero / 64 * 64
-		if off > c.O {
+		if off > offs[op.I] {
 			advanced = true
+		}
+		if op.K == "set" && op.A >= off+64*1024 {
+			add("set-more-than-1024-words-ahead")
 		}
 		if advanced && m.maxSet >= off {
 			probedAfter = true
@@ -329,12 +392,24 @@ func genCase(t *rapid.T) Case {
 		o = 1 << 37
 	}
 	c := Case{O: o, ProbeKey: vk.U64(gen.U64(t, "probekey"))}
-	m := newModel(o)
+	if gen.Chance(t, 1, 3, "multi") { // several bitmaps alive at the same time
+		for k := 1 + gen.Uniform(t, 2, "extra"); k > 0; k-- {
+			c.More = append(c.More, []int64{0, 64, 128, 1 << 20, o}[gen.Uniform(t, 5, "o2")])
+		}
+	}
+	offs := append([]int64{c.O}, c.More...)
+	ms := make([]*model, len(offs))
+	for i, oo := range offs {
+		ms[i] = newModel(oo)
+	}
+	m := ms[0]
 	maxSteps := vk.Pick(60, 400)
 	n := 1 + gen.Len(t, maxSteps-1, "steps")
 	farWords := int64(vk.Pick(8, 64))
 	bigBudget := 1 // at most one reclaim-crossing macro per history (65k elementary Sets)
 	for i := 0; i < n; i++ {
+		inst := gen.Uniform(t, len(ms), "instance")
+		m = ms[inst]
 		off := m.firstZero / 64 * 64 // where a correct implementation has its Offset
 		end := off
 		if m.maxSet >= off {
@@ -359,6 +434,9 @@ func genCase(t *rapid.T) Case {
 			op = Op{K: "set", A: off + 64*k + int64(gen.Uniform(t, 64, "bit"))}
 		case 7: // past the end
 			op = Op{K: "set", A: end + int64(gen.U64(t, "far")%uint64(64*farWords))}
+			if gen.Chance(t, 1, 6, "veryfar") { // one Set more than 1024 words (the initial capacity) ahead
+				op.A = end + 64*1024 + int64(gen.U64(t, "far2")%(64*40))
+			}
 		case 8: // repeat something already set
 			if m.maxSet >= 0 {
 				op = Op{K: "set", A: m.maxSet}
@@ -381,6 +459,7 @@ func genCase(t *rapid.T) Case {
 		default:
 			op = Op{K: "compact"}
 		}
+		op.I = inst
 		c.Ops = append(c.Ops, op)
 		for _, idx := range expand(op, m) {
 			m.doSet(idx)
